@@ -5,7 +5,7 @@ import json, os, subprocess
 
 HERE = os.path.dirname(os.path.dirname(os.path.abspath(__file__)))
 
-BUILT = ["C01", "C04", "C05", "C06", "C07", "C08", "C11", "C18", "C19", "C20"]
+BUILT = ["C01", "C04", "C05", "C06", "C07", "C08", "C09", "C10", "C11", "C18", "C19", "C20"]
 
 TECH = "deterministic simulation with fault injection: seeded search over scenarios/histories/faults, invariants checked during each run and over the recorded history"
 
